@@ -12,7 +12,7 @@ PB = "hiten.algorithms.polynomial.base"
 PA = "hiten.algorithms.polynomial.algebra"
 PO = "hiten.algorithms.polynomial.operations"
 
-X = sp.symbols("x0:6")
+X = sp.symbols("x0:6", real=True)
 
 # documented layout: k1 bits 0-5, k2 6-11, k3 12-17, k4 18-23, k5 24-29; k0 = degree - sum
 SHIFTS = {1: 0, 2: 6, 3: 12, 4: 18, 5: 24}
